@@ -383,11 +383,10 @@ Definition dom_wf (d : domain) : Prop :=
   | DCategorical c _ | DOrdinal c _ | DOrdinalNN c _ => c <> []
   | DFiniteRange lo hi size _ _ => lo <= hi /\ (1 <= size)%Z
   end.
-(* side conditions of the sampler theorem: the integer log sampler has no clip, so it needs the
-   facts of log/exp; a quantisation factor must be positive *)
+(* the only side condition of the sampler theorem: a quantisation factor is positive (every log
+   sampler clips, so no fact about log/exp is needed) *)
 Definition samp_hyp (sl sr : scaling) (d : domain) : Prop :=
   match d with
-  | DInteger lo hi SLogUniform => sc_sample_good sl (inject_Z lo) (inject_Z hi)
   | DInteger _ _ (SQuant _ q) => 0 < q
   | _ => True
   end.
@@ -463,8 +462,8 @@ Proof.
     + destruct r as [u|i]; simpl in Hs; try discriminate. injection Hs as <-. simpl in *.
       apply andb_true_iff in Hr; destruct Hr as [Hu0 Hu1]; apply Qleb_true in Hu0; apply Qltb_lt in Hu1.
       rewrite round_he_inject.
-      pose proof (log_draw_in sl _ _ u Hh Hu0 Hu1) as Hin.
-      apply round_he_in_Z in Hin. lia.
+      pose proof (Zclip_bounds (round_he (from_int sl (to_int sl (inject_Z lo) +
+                   (to_int sl (inject_Z hi) - to_int sl (inject_Z lo)) * u))) lo hi Hwf). lia.
     + destruct r; discriminate.
     + destruct (sample_int sl lo hi s' r) as [v|]; [|discriminate]. injection Hs as <-.
       simpl. pose proof (quantize_int_in q lo hi v Hh Hwf). lia.
